@@ -10,7 +10,21 @@ for d in $DIR/h*.diff; do
   rsync -a --exclude .git /repo/ "$D/"
   if ! (cd "$D" && patch -p1 -s < "$d" >/dev/null 2>&1); then echo "| $(basename $(dirname $d))/$(basename $d) | PATCH-FAILED | |" >> $OUT; rm -rf "$D"; continue; fi
   files=$(grep '^+++ b/' "$d" | sed 's/+++ b\///' | tr '\n' ' ')
-  res=$(for p in $PROPS; do echo $p; done | xargs -P 5 -I{} bash -c "/verif/check {} --repo $D --replays /tmp/rp-harm --evidence /tmp/ev-harm-{}.json 2>&1 | grep '^VIOLATION' | sed 's/.*obligation=//' | cut -d' ' -f1 | sed 's/^/{}:/'" | tr '\n' ' ')
+  # only the checks that have a function under contract in a touched file (per the committed evidence files)
+  SEL=$(python3 - "$files" <<'PY'
+import json,glob,sys
+files=sys.argv[1].split()
+out=[]
+for e in sorted(glob.glob('/verif/evidence/C*.json')):
+    d=json.load(open(e))
+    fs={f.get('file','') for f in d.get('coverage',{}).get('functions',[])}
+    if any(x in fs for x in files) or not any(fs):
+        out.append(d['property_id'])
+print(' '.join(out))
+PY
+)
+  [ -z "$SEL" ] && SEL="$PROPS"
+  res=$(for p in $SEL; do echo $p; done | xargs -P 5 -I{} bash -c "/verif/check {} --repo $D --replays /tmp/rp-harm --evidence /tmp/ev-harm-{}.json 2>&1 | grep '^VIOLATION' | sed 's/.*obligation=//' | cut -d' ' -f1 | sed 's/^/{}:/'" | tr '\n' ' ')
   if [ -z "$res" ]; then v="quiet"; else v="ALARM"; fi
   echo "| $(basename $(dirname $d))/$(basename $d) | $files | $v | $res |" >> $OUT
   rm -rf "$D"
